@@ -57,6 +57,18 @@ def cases(tier, seed):
             r3 = rc[k % len(rc)]
             for sim in (True, False):
                 cs.append((c4, [(r1, F(6)), (r2, F(6)), (r3, F(2))], (2, "droop", sim, ("fractional", "sequential")[k % 2], "random")))
+    # several candidates without a single first-place vote at once (one elimination per round, each a recorded tie), more seats
+    # than vote-holding candidates, everybody left filling the last seats
+    c5 = gen.NAMES[:5]
+    one = lambda *cs_: tuple(frozenset([c]) for c in cs_)
+    zero_fams = [[(one("A"), F(10)), (one("B", "A"), F(1))], [(one("A", "C"), F(4)), (one("B"), F(3))], [(one("A"), F(2))],
+                 [(one("A", "B"), F(5)), (one("B", "A"), F(4)), (one("A", "D"), F(1))], [(one("C", "D"), F(3)), (one("D", "C"), F(3)), (one("C"), F(1))]]
+    for bl in zero_fams:
+        for m in (1, 2, 3):
+            for sim in (True, False):
+                for tb in (None, "random"):
+                    cs.insert(0, (c5, bl, (m, "droop", sim, "fractional", tb)))
+        cs.insert(0, (c5, bl, (2, "droop", True, "sequential", "random")))
     if tier == "thorough":
         for cands, bl in gen.profiles_exhaustive(3, 3, [F(1), F(3), F(1, 2), F(2, 3)]):
             add(cands, bl, 4)
